@@ -32,7 +32,29 @@ type bndProver struct {
 }
 
 func (c *Ctx) newProver(fa *FnAnalysis, st *State) *bndProver {
+	if st.frozen {
+		if c.proverCache == nil {
+			c.proverCache = map[*State]*bndProver{}
+		}
+		base, ok := c.proverCache[st]
+		if !ok {
+			base = newProverE(c.eng, fa, st)
+			c.proverCache[st] = base
+		}
+		return base.cloneP()
+	}
 	return newProverE(c.eng, fa, st)
+}
+
+func (p *bndProver) cloneP() *bndProver {
+	n := &bndProver{c: p.c, fa: p.fa, st: p.st, sys: p.sys.clone(), ari: map[*Term]bool{}, axDone: map[*Term]bool{}}
+	for k, v := range p.ari {
+		n.ari[k] = v
+	}
+	for k, v := range p.axDone {
+		n.axDone[k] = v
+	}
+	return n
 }
 
 func newProverE(c *Engine, fa *FnAnalysis, st *State) *bndProver {
@@ -390,6 +412,27 @@ func (c *Ctx) provesFact(fa *FnAnalysis, st *State, f Fact, stackVals []ssa.Valu
 	if f.Kind != aTR || f.T.K != "B" {
 		return false
 	}
+	// states stored by an analysis are immutable: cache per (state, goal)
+	if c.proveCache == nil {
+		c.proveCache = map[*State]map[string]bool{}
+	}
+	ck := fmt.Sprintf("%s=%v", f.T.key, f.Val)
+	if m, ok := c.proveCache[st]; ok {
+		if v, ok := m[ck]; ok {
+			return v
+		}
+	}
+	res := c.provesFactUncached(fa, st, f, stackVals)
+	if st.frozen {
+		if c.proveCache[st] == nil {
+			c.proveCache[st] = map[string]bool{}
+		}
+		c.proveCache[st][ck] = res
+	}
+	return res
+}
+
+func (c *Ctx) provesFactUncached(fa *FnAnalysis, st *State, f Fact, stackVals []ssa.Value) bool {
 	p := c.newProver(fa, st)
 	for _, v := range stackVals {
 		p.stackLen(v)
@@ -415,6 +458,21 @@ func (c *Ctx) provesFact(fa *FnAnalysis, st *State, f Fact, stackVals []ssa.Valu
 
 // stateInfeasible: the linear content of the state has no integer solution.
 func (c *Ctx) stateInfeasible(fa *FnAnalysis, st *State, stackVals []ssa.Value) bool {
+	if st.frozen {
+		if c.infeasCache == nil {
+			c.infeasCache = map[*State]bool{}
+		}
+		if v, ok := c.infeasCache[st]; ok {
+			return v
+		}
+		v := c.stateInfeasibleUncached(fa, st, stackVals)
+		c.infeasCache[st] = v
+		return v
+	}
+	return c.stateInfeasibleUncached(fa, st, stackVals)
+}
+
+func (c *Ctx) stateInfeasibleUncached(fa *FnAnalysis, st *State, stackVals []ssa.Value) bool {
 	p := c.newProver(fa, st)
 	for _, v := range stackVals {
 		p.stackLen(v)
